@@ -13,7 +13,7 @@ EXTENDS Mint, TLC
 
 CONSTANTS Pools, MaxB
 
-PoolsQuick == (1 .. 20) \cup {365, 99999}
+PoolsQuick == (1 .. 12) \cup {365, 99999}
 PoolsThorough == (1 .. 400) \cup {3650, 36500, 99999, 500000}
 PoolsW4 == {1, 9999, 10000, 36500, 3650000, 99999999, 200000000}
 
